@@ -389,6 +389,7 @@ fn monotone_downsample() {
     let f: u32 = kani::any();
     kani::assume(f <= 12);
     assert!(nested(a.downsample(f), b.downsample(f)), "[C06] downsample is monotone");
+    kani::cover!(f == 3 && a != b && !a.is_empty());
 }
 #[kani::proof]
 fn monotone_pad() {
@@ -396,6 +397,7 @@ fn monotone_pad() {
     let s: u32 = kani::any();
     kani::assume(s <= 48);
     assert!(nested(a.pad(s), b.pad(s)), "[C06] pad is monotone");
+    kani::cover!(s == 6 && a != b && !a.is_empty());
 }
 #[kani::proof]
 fn monotone_upsample() {
@@ -405,6 +407,7 @@ fn monotone_upsample() {
     kani::assume(l(a).abs() <= 1 << 18 && t(a).abs() <= 1 << 18 && a.width <= 1 << 18 && a.height <= 1 << 18);
     kani::assume(l(b).abs() <= 1 << 18 && t(b).abs() <= 1 << 18 && b.width <= 1 << 18 && b.height <= 1 << 18);
     assert!(nested(a.upsample(f), b.upsample(f)), "[C06] upsample is monotone");
+    kani::cover!(f == 3 && a != b && !a.is_empty());
 }
 #[kani::proof]
 fn monotone_container_aligned() {
@@ -412,6 +415,7 @@ fn monotone_container_aligned() {
     let k: u32 = kani::any();
     kani::assume(k <= 10);
     assert!(nested(a.container_aligned(1 << k), b.container_aligned(1 << k)), "[C06] container_aligned is monotone");
+    kani::cover!(k == 3 && a != b && !a.is_empty());
 }
 
 #[kani::proof]
